@@ -782,13 +782,15 @@ fn expr_to_asg_texpr(
             else {
                 return not_impl_expr(context, &bin_expr);
             };
-            // There are no binary ops that accept quantum operands.
-            if left.get_type().is_quantum() {
+            // There are no binary ops that accept quantum operands, except for
+            // concatenation of registers, as in `let a = q ++ r;`.
+            let is_concatenation = matches!(op, asg::BinaryOp::ConcatenationOp);
+            if !is_concatenation && left.get_type().is_quantum() {
                 // Generate the ast node again, for the borrow checker. But we are already
                 // on the sad path.
                 context.insert_error(IncompatibleTypesError, &bin_expr.lhs().unwrap());
             }
-            if right.get_type().is_quantum() {
+            if !is_concatenation && right.get_type().is_quantum() {
                 context.insert_error(IncompatibleTypesError, &bin_expr.rhs().unwrap());
             }
             Some(asg::BinaryExpr::new_texpr_with_cast(op, left, right))
